@@ -70,11 +70,79 @@ Definition ph_ok (i : item) : bool :=
 Definition wf_sid_tpl (t : tpl) : bool :=
   sid_shape (tp_items t) && nodupb (item_names (tp_items t)) && forallb ph_ok (tp_items t).
 
-Definition wf_loadedb (Ld : Loaded) : bool :=
+Definition wf_loaded_base (Ld : Loaded) : bool :=
   nodupb (map tp_name (r_tpls (l_sid Ld)))
   && forallb wf_sid_tpl (r_tpls (l_sid Ld))
   && negb (r_check_dup (l_sid Ld))
   && nodupb (map fst (c_sid_templates (l_conf Ld))).
+
+(** Additional clauses used by Sid/SidLemmas.v and Sid/SidProofs.v (C01-C04). *)
+
+Definition opt_eqb (a b : option string) : bool :=
+  match a, b with
+  | Some x, Some y => String.eqb x y
+  | None, None => true
+  | _, _ => false
+  end.
+
+Definition item_eqb (a b : item) : bool :=
+  match a, b with
+  | Lit x, Lit y => String.eqb x y
+  | Ph n e, Ph n' e' => String.eqb n n' && opt_eqb e e'
+  | _, _ => false
+  end.
+
+Fixpoint items_eqb (a b : list item) : bool :=
+  match a, b with
+  | [], [] => true
+  | x :: a', y :: b' => item_eqb x y && items_eqb a' b'
+  | _, _ => false
+  end.
+
+Fixpoint strs_eqb (a b : list string) : bool :=
+  match a, b with
+  | [], [] => true
+  | x :: a', y :: b' => String.eqb x y && strs_eqb a' b'
+  | _, _ => false
+  end.
+
+(* a type name is not empty and contains neither ":" nor "?" (so that "type:string" splits back) *)
+Definition type_name_ok (n : string) : bool :=
+  negb (sempty n) && negb (mem_c ":" n) && negb (mem_c "?" n).
+
+(* two templates with the same key set have the same key sequence *)
+Definition same_keys_same_seq (tpls : list tpl) : bool :=
+  forallb (fun t1 =>
+    forallb (fun t2 =>
+      implb (keys_eq (item_names (tp_items t1)) (item_names (tp_items t2)))
+            (strs_eqb (item_names (tp_items t1)) (item_names (tp_items t2)))) tpls) tpls.
+
+(* prefix closure: for every template and every i < (number of placeholders), some template
+   consists of exactly its first i+1 placeholders (same names, same patterns) *)
+Definition prefix_closed (tpls : list tpl) : bool :=
+  forallb (fun t =>
+    forallb (fun i =>
+      existsb (fun t' => items_eqb (tp_items t') (firstn (2 * i + 1) (tp_items t))) tpls)
+      (seq 0 (List.length (item_names (tp_items t))))) tpls.
+
+(* the pattern of the first placeholder does not accept the empty string
+   (so no prefix of a typed sid is the empty string) *)
+Definition first_nonempty (t : tpl) : bool :=
+  match tp_items t with
+  | Ph _ (Some e) :: _ => match parse_re e with
+                          | Some r => negb (match_full r "")
+                          | None => false
+                          end
+  | _ => false
+  end.
+
+Definition wf_loaded_ext (Ld : Loaded) : bool :=
+  forallb (fun t => type_name_ok (tp_name t) && first_nonempty t) (r_tpls (l_sid Ld))
+  && same_keys_same_seq (r_tpls (l_sid Ld))
+  && prefix_closed (r_tpls (l_sid Ld))
+  && forallb (fun sym => negb (sempty sym)) (c_search_symbols (l_conf Ld)).
+
+Definition wf_loadedb (Ld : Loaded) : bool := wf_loaded_base Ld && wf_loaded_ext Ld.
 
 Definition wf_confb (c : Conf) : bool :=
   match load c with
